@@ -56,6 +56,7 @@ func GenProgram(b Bias) *rapid.Generator[Program] {
 		if b.Cancel {
 			p.EarlyWaiter = rapid.IntRange(0, 4).Draw(t, "earlyWaiter") == 0
 			p.Abrupt = rapid.IntRange(0, 9).Draw(t, "abrupt") == 0
+			p.BornDone = rapid.IntRange(0, 14).Draw(t, "bornDone") == 0
 		}
 		if rapid.IntRange(0, 99).Draw(t, "useDeadline") < b.Deadline {
 			p.Deadline = rapid.SampledFrom([]time.Duration{50 * time.Millisecond, 500 * time.Millisecond, 3 * time.Second, 30 * time.Second}).Draw(t, "deadline")
